@@ -13,7 +13,8 @@ from .. import kpx
 PID = 'C12'
 SHARDS = {'quick': 1, 'thorough': 16}
 
-UNLEXABLE = ['§', '€', 'ß', 'ø', '¿', '日']
+# the last five: combining marks and singleton code points that a Unicode normalisation would rewrite
+UNLEXABLE = ['§', '€', 'ß', 'ø', '¿', '日', '\u0301', '\u0303', '\u0327', '\u212b', '\u2126']
 
 
 def malformed(rng):
@@ -136,6 +137,24 @@ def doc_level(ctx: Ctx, cs):
             except OSError:
                 pass
     partial = {t for t, full in consumption.LOG if not full}
+    if cs % 2 == 0:
+        # the same damaged text below 1..3 blank lines (a triple-quoted literal, a file with leading blank lines): blank lines are
+        # lines, every reported line number moves down by their number and nothing else changes
+        nlead = cs % 3 + 1
+        lead = ('\r\n' if cs % 5 == 0 else '\n') * nlead
+        ctx.mon('imports_below_leading_blank_lines')
+        d_l, errs_l, exc_l = kpx.loads(lead + x)
+        if exc_l is not None:
+            ctx.violation('leading-blank-lines', f'the same text below {nlead} blank line(s) raised {type(exc_l).__name__}: {exc_l}', case)
+        else:
+            want = [(e_.line + nlead, e_.encoding) for e_ in errs]
+            got_l = [(e_.line, e_.encoding) for e_ in errs_l]
+            if got_l != want:
+                ctx.violation('wrong-error-line', f'below {nlead} leading blank line(s) the errors are reported at {got_l[:4]}, expected '
+                              f'{want[:4]} (every line number moved down by {nlead})', dict(case, leading_blank_lines=nlead))
+            elif kpx.dumps(d_l)[0] != kpx.dumps(d)[0]:
+                ctx.violation('leading-blank-lines', f'the same text below {nlead} blank line(s) exports differently', case)
+        consumption.clear()
     nonblank = [i for i, ln in enumerate(doc.lines) if ln.kind != 'b']
     stage_of = {li: kk + 1 for kk, li in enumerate(nonblank)}
     # expected error list
